@@ -154,7 +154,9 @@ class Maths(object):
         # a user function that itself calls another functional on another method
         # of the same object (two wrappers substituting into one object)
         SIM.enter("f_reent", self)
-        c = xitorch.integrate.quad(self.f_quad, 0.0, 1.0, params=(s,), n=3).sum()
+        # tensor limits: with number limits quad's own backward raises (a matter of another property)
+        c = xitorch.integrate.quad(self.f_quad, torch.tensor(0.0, dtype=DT), torch.tensor(1.0, dtype=DT),
+                                   params=(s,), n=3).sum()
         return y + 0.2 * torch.tanh(self._W() @ y) - self._b() * s * (1.0 + 0.01 * c)
 
 
